@@ -298,6 +298,28 @@ def run_case(rec, rng, rngkey=None):
         if got != mv:
             mech = f"{'inner-pytree-' if 'pytree' in repr(case['L']) else ''}model-{mv}-real-{got}"
             rec.violation("verdict", dict(desc, style=style), f"{desc['L']} style={style}: model {mv}, real {got}; trees={desc['trees']} plain={case['plain']}", mechanism=mech)
+    # the same trees checked OUTSIDE every context (each check stateless there), whatever they answer: afterwards a
+    # '?' axis outside a structured PyTree is still misuse (a context that ends would hide a leaf position left behind)
+    T0 = LT.build(case["L"])
+    for x in vals[:2]:
+        try:
+            isinstance(x, jaxtyping.PyTree[T0, "T"])
+        except Exception:  # noqa
+            pass
+    try:
+        isinstance(real.np_array((2,)), jaxtyping.Shaped[np.ndarray, "?n"])
+        got_top = "ok"
+    except Exception as e:  # noqa
+        got_top = classify(e)
+    rec.count("toplevel_question_probe")
+    if got_top != "annot":
+        rec.violation("misuse", {"form": "toplevel-after-toplevel-checks", "L": desc["L"], "trees": desc["trees"][:2], "rngkey": rngkey}, f"after checking the trees against PyTree[{desc['L']}, 'T'] outside every context, '?n' outside a structured PyTree answered {got_top} (expected AnnotationError)", mechanism="leaf-position-left-behind-at-top-level")
+        try:
+            from jaxtyping import _storage as _S
+
+            _S._treepath_storage.value = None  # repair harness state so that later cases are judged on their own
+        except Exception:
+            pass
     # misuse forms
     arr = real.np_array((2,))
     Sn = jaxtyping.Shaped[np.ndarray, rng.choice(("?n", "*?n", "?n m", "m ?n"))]
